@@ -106,6 +106,12 @@ fn touch(s: &str, f: &Filter) {
 }
 
 pub(crate) fn parse_tree(s: &str, p: &mut usize) -> Option<Filter> {
+    parse_tree_opt(s, p, false)
+}
+
+/// `shadow`: a filter of the SAME SHAPE with every operator, every value and every exists/absent
+/// exchanged for another one — the value a `clone_from` overwrites (see `exec`)
+fn parse_tree_opt(s: &str, p: &mut usize, shadow: bool) -> Option<Filter> {
     let kind = s[*p..].chars().next()?;
     *p += 1;
     eat(s, p, '(')?;
@@ -113,35 +119,52 @@ pub(crate) fn parse_tree(s: &str, p: &mut usize) -> Option<Filter> {
         'T' => {
             let t = mk_tag(up_to(s, p, ','))?;
             eat(s, p, ',')?;
-            let op = *OPS.get(up_to(s, p, ',').parse::<usize>().ok()?)?;
+            let idx = up_to(s, p, ',').parse::<usize>().ok()?;
+            let op = *OPS.get(idx)?;
             eat(s, p, ',')?;
             let v = value(up_to(s, p, ')'))?;
-            Filter::new(t, op, v)
+            if shadow {
+                Filter::new(t, OPS[(idx + 1) % OPS.len()], "shadow \\ value")
+            } else {
+                Filter::new(t, op, v)
+            }
         }
         'Q' => {
             let t = mk_tag(up_to(s, p, ','))?;
             eat(s, p, ',')?;
             let v = value(up_to(s, p, ')'))?;
-            Filter::tag(t, v)
+            if shadow {
+                Filter::new(t, Operator::Contain, "shadow")
+            } else {
+                Filter::tag(t, v)
+            }
         }
+        'E' if shadow => Filter::tag_absent(mk_tag(up_to(s, p, ')'))?),
+        'X' if shadow => Filter::tag_exists(mk_tag(up_to(s, p, ')'))?),
         'E' => Filter::tag_exists(mk_tag(up_to(s, p, ')'))?),
         'X' => Filter::tag_absent(mk_tag(up_to(s, p, ')'))?),
         'N' => {
-            let g = parse_tree(s, p)?;
-            touch(s, &g);
+            let g = parse_tree_opt(s, p, shadow)?;
+            if !shadow {
+                touch(s, &g);
+            }
             g.negate()
         }
         'M' => {
-            let g = parse_tree(s, p)?;
-            touch(s, &g);
+            let g = parse_tree_opt(s, p, shadow)?;
+            if !shadow {
+                touch(s, &g);
+            }
             !g
         }
         'A' => {
-            let a = parse_tree(s, p)?;
+            let a = parse_tree_opt(s, p, shadow)?;
             eat(s, p, ';')?;
-            let b = parse_tree(s, p)?;
-            touch(s, &a);
-            touch(s, &b);
+            let b = parse_tree_opt(s, p, shadow)?;
+            if !shadow {
+                touch(s, &a);
+                touch(s, &b);
+            }
             a.and(b)
         }
         _ => return None,
@@ -161,6 +184,24 @@ pub fn exec(op: &[&str]) -> String {
             if p != op[1].len() {
                 return "badinput".into();
             }
+            // history that must be irrelevant: the filter that is sent OVERWRITES, via `Clone::clone_from`
+            // (directly, or as the element of a `Vec`), a filter of the same shape with other operators and
+            // values — for every third op line (by the length of the tree text)
+            let f = match op[1].len() % 6 {
+                1 => {
+                    let mut q = 0;
+                    let mut g = parse_tree_opt(op[1], &mut q, true).expect("shadow");
+                    g.clone_from(&f);
+                    g
+                }
+                4 => {
+                    let mut q = 0;
+                    let mut v = vec![parse_tree_opt(op[1], &mut q, true).expect("shadow")];
+                    v.clone_from(&vec![f]);
+                    v.pop().unwrap()
+                }
+                _ => f,
+            };
             let mut cmd = Command::build("find").expect("find");
             if cmd.add_argument(f).is_err() {
                 return "rejected".into();
